@@ -114,10 +114,11 @@ type vmRun struct {
 	out hostapi.Outcome
 }
 
-var onThread bool // set per run (single-threaded worker)
+var onThread bool    // set per run (single-threaded worker)
+var mainContext bool // with onThread: the main state keeps a context of its own that is never done
 
 func exec(proto *lua.FunctionProto, o lua.Options, withCtx bool, kind int, at int64, maxSteps int64) *vmRun {
-	h := hostapi.NewHost(hostapi.Options{LuaOptions: o, Kind: kind, At: at, MaxSteps: maxSteps, WithContext: withCtx, OnThread: onThread})
+	h := hostapi.NewHost(hostapi.Options{LuaOptions: o, Kind: kind, At: at, MaxSteps: maxSteps, WithContext: withCtx, OnThread: onThread, MainContext: mainContext})
 	// math is needed by one template
 	h.L.Push(h.L.NewFunction(lua.OpenMath))
 	h.L.Push(lua.LString(lua.MathLibName))
@@ -174,9 +175,16 @@ func (e *Engine) Run(t *core.Tape, cfg *core.Config, st *core.Stats) *core.Viola
 	}
 	// the context may be attached to a thread created from a context-less main state
 	onThread = name != "simlua" && t.Choose(3) == 0
+	mainContext = false
 	if onThread {
 		st.Probe("context_on_non_main_thread")
 		name += "@thread"
+		if t.Choose(2) == 0 {
+			// the main state has its own (never done) context; the thread's context was attached over the inherited one
+			mainContext = true
+			name += "+mainctx"
+			st.Probe("thread_context_over_inherited_context")
+		}
 	}
 	o := hostapi.SmallOptions()
 	switch t.Choose(4) {
